@@ -1238,6 +1238,48 @@ func (c *Ctx) appendStructElems(s *State, dst, src, res SliceV, fits string, el 
 	walk(el, func(base string) string { return base }, func(r string) (string, string) { return r, "true" })
 }
 
+// copyStructBuiltin: copy(dst, src) for slices of struct elements. Every scalar field of the elements lives in a field
+// heap keyed by (mkelem arr idx) references (nested structs: mksub of those). memmove semantics: the new heap at element
+// dst.Off+k equals the OLD heap at element src.Off+k for 0 <= k < n; every other reference keeps its value.
+func (c *Ctx) copyStructBuiltin(s *State, dst, src SliceV, n string, el types.Type) {
+	lo := dst.Off
+	hi := c.idxAdd(dst.Off, n)
+	var walk func(t types.Type, path func(base string) string, inv func(r string) (string, string))
+	walk = func(t types.Type, path func(base string) string, inv func(r string) (string, string)) {
+		u := structOf(t)
+		for i := 0; i < u.NumFields(); i++ {
+			ft := u.Field(i).Type()
+			if isAggregate(ft) {
+				if structOf(ft) == nil {
+					unsup("copy of struct elements with array fields")
+				}
+				ii := i
+				walk(ft, func(base string) string { return fmt.Sprintf("(mksub %s %d)", path(base), ii) },
+					func(r string) (string, string) {
+						er, cond := inv(fmt.Sprintf("(sparent %s)", r))
+						return er, fmt.Sprintf("(and ((_ is mksub) %s) (= (sfld %s) %d) %s)", r, r, ii, cond)
+					})
+				continue
+			}
+			for _, cp := range c.ar.comps(ft) {
+				name := fieldHeapName(typeName(t), u.Field(i).Name(), cp.Path)
+				hs := fmt.Sprintf("(Array Ref %s)", cp.S)
+				h := c.heapTerm(s, name, hs)
+				nh := c.havocHeapNamed(s, name, hs)
+				k := "k"
+				newRef := path(fmt.Sprintf("(mkelem %s %s)", dst.Arr, k))
+				srcRef := path(fmt.Sprintf("(mkelem %s %s)", src.Arr, c.idxAdd(src.Off, c.idxSub(k, lo))))
+				c.assume(s, fmt.Sprintf("(forall ((k %s)) (! (=> (and %s %s) (= (select %s %s) (select %s %s))) :pattern ((select %s %s))))",
+					c.ar.idxSort(), c.idxCmp(token.LEQ, lo, k), c.idxCmp(token.LSS, k, hi), nh, newRef, h, srcRef, nh, newRef))
+				er, shape := inv("r")
+				c.assume(s, fmt.Sprintf("(forall ((r Ref)) (! (=> (not (and %s ((_ is mkelem) %s) (= (earr %s) %s) %s %s)) (= (select %s r) (select %s r))) :pattern ((select %s r))))",
+					shape, er, er, dst.Arr, c.idxCmp(token.LEQ, lo, "(eidx "+er+")"), c.idxCmp(token.LSS, "(eidx "+er+")", hi), nh, h, nh))
+			}
+		}
+	}
+	walk(el, func(base string) string { return base }, func(r string) (string, string) { return r, "true" })
+}
+
 func (c *Ctx) copyBuiltin(s *State, fr *Frame, x ssa.Instruction, args []Val, raw []ssa.Value) Val {
 	dst := args[0].(SliceV)
 	el := dst.Ty.Underlying().(*types.Slice).Elem()
@@ -1254,7 +1296,11 @@ func (c *Ctx) copyBuiltin(s *State, fr *Frame, x ssa.Instruction, args []Val, ra
 	}
 	n := c.bind(s, "copyn", c.ar.idxSort(), fmt.Sprintf("(ite %s %s %s)", c.idxCmp(token.LEQ, dst.Len, srcLen), dst.Len, srcLen))
 	if isAggregate(el) {
-		unsup("copy of struct elements")
+		if structOf(el) == nil || isStr {
+			unsup("copy of array elements")
+		}
+		c.copyStructBuiltin(s, dst, src, n, el)
+		return Scalar{n, c.ar.idxSort(), types.Typ[types.Int]}
 	}
 	for _, cp := range c.ar.comps(el) {
 		name := elemHeapName(el, cp.Path)
